@@ -1006,6 +1006,11 @@ def shallowcopy(I, v):
         return stamp(PDict(list(zip(v.keys, v.vals)), v.ordered))
     if isinstance(v, NDArr):
         return I.np.copy_array(v, deep=False)
+    if isinstance(v, SymDict):
+        r = stamp(SymDict(v.present, v.val, v.name))
+        for k_, x in zip(v.overlay.keys, v.overlay.vals):
+            r.overlay.set(k_, x)
+        return r
     if v is None or isinstance(v, (int, str, bool, SV, Opaque, NT)):
         return v
     raise Unsupported('copy.copy of %s' % type(v).__name__)
